@@ -162,6 +162,7 @@ def check(ctx):
     ctx.check(bool(t) and bool(pp) and D.dominated_by_edge(pp, t[0], "T"), "T6-oset", di, "oset.discard unlinks only a present key", "")
     super_targets_do_not_redispatch(ctx)
     oset_eq_is_ordered(ctx)
+    oset_link_writers(ctx)
 
 
 def super_targets_do_not_redispatch(ctx):
@@ -209,3 +210,30 @@ def oset_eq_is_ordered(ctx):
     ctx.check(ok, "T9-oset-eq", f, "oset.__eq__: ordered comparison for two osets (list(self) == list(other))",
               "two ordered sets with the same members entered in a different order compare equal: dict key views and sets compare "
               "without regard to order")
+
+
+def oset_link_writers(ctx):
+    """oset keeps a dict (key -> node) and a doubly linked ring through a sentinel; __init__, add and discard are the only methods
+    that touch the ring, and each updates both directions.  A further writer (an O(1) clear() that resets one link, ..) has to
+    keep map, forward and backward links in step on its own"""
+    ctx.rule("T4-oset", "only oset.__init__/add/discard write self.map or the ring links; each ring update writes both [1] and [2]")
+    S_ = ctx.cls("aid.osetting", "oset")
+    allowed = {"__init__", "add", "discard"}
+    k = 0
+    for name, f in S_.methods.items():
+        ring = [x for x in ast.walk(f) if isinstance(x, ast.Subscript) and isinstance(x.ctx, (ast.Store, ast.Del)) and
+                isinstance(x.slice, ast.Constant) and x.slice.value in (1, 2)]
+        mapw = [x for x in ast.walk(f) if (isinstance(x, ast.Subscript) and isinstance(x.ctx, (ast.Store, ast.Del)) and src(x.value) == "self.map") or
+                (isinstance(x, ast.Attribute) and isinstance(x.ctx, ast.Store) and src(x) in ("self.map", "self.end")) or
+                (isinstance(x, ast.Call) and isinstance(x.func, ast.Attribute) and src(x.func.value) == "self.map" and
+                 x.func.attr in ("clear", "pop", "popitem", "update", "setdefault"))]
+        if not ring and not mapw:
+            continue
+        k += 1
+        ctx.check(name in allowed, "T4-oset", (ring + mapw)[0], "oset.%s writes the map / ring (%s)" % (name, src((ring + mapw)[0])[:40]),
+                  "a writer outside __init__/add/discard has to keep the dict and both link directions consistent by itself; resetting "
+                  "only the forward link of the sentinel leaves reversed() and the next add() on the stale tail")
+        if name in allowed and ring:
+            dirs = {x.slice.value for x in ring}
+            ctx.check(dirs == {1, 2}, "T4-oset", ring[0], "oset.%s updates both link directions (%s)" % (name, sorted(dirs)), "forward and backward iteration must agree")
+    ctx.floor("T4-oset:writers", k, 3)
